@@ -49,6 +49,15 @@ pub fn stark_commit<Layout: LayoutTrait>(
     let oods_coefficients =
         powers_array(Felt::ONE, oods_alpha, (Layout::MASK_SIZE + Layout::CONSTRAINT_DEGREE) as u32);
 
+    // fri_commit asserts on these; report malformed proofs as errors instead.
+    if Felt::from(unsent_commitment.fri.inner_layers.len()) + Felt::ONE != config.fri.n_layers
+        || config.fri.inner_layers.len() < unsent_commitment.fri.inner_layers.len()
+        || Felt::from(unsent_commitment.fri.last_layer_coefficients.len())
+            != Felt::TWO.pow_felt(&config.fri.log_last_layer_degree_bound)
+    {
+        return Err(Error::FriCommitmentInvalid);
+    }
+
     // Read fri commitment.
     let fri_commitment = fri_commit(transcript, unsent_commitment.fri.clone(), config.fri.clone());
 
@@ -95,6 +104,9 @@ pub enum Error {
 
     #[error("OodsVerifyError Error")]
     Oods(#[from] oods::OodsVerifyError),
+
+    #[error("wrong number of FRI layer commitments or last layer coefficients")]
+    FriCommitmentInvalid,
 }
 
 #[cfg(not(feature = "std"))]
@@ -108,4 +120,7 @@ pub enum Error {
 
     #[error("OodsVerifyError Error")]
     Oods(#[from] oods::OodsVerifyError),
+
+    #[error("wrong number of FRI layer commitments or last layer coefficients")]
+    FriCommitmentInvalid,
 }
